@@ -32,7 +32,7 @@ theorem hfMapOf_ofNat (c : Aqv.Consensus.Config) (hf : Nat) (h : hf < 2 ^ 63) :
 
 /-- params.(*ChainConfig).IsHF -/
 theorem ChainConfig_IsHF_translated_eq (c : Aqv.Consensus.Config) (hf : Nat) (h : hf < 2 ^ 63) (num : Nat) :
-    Translated.ChainConfig_IsHF (hfMapOf c) (Int64.ofNat hf) (some (num : Int)) = some (c.isHF hf num) := by
+    Translated.ChainConfig_IsHF (c_HF := hfMapOf c) (Int64.ofNat hf) (some (num : Int)) = some (c.isHF hf num) := by
   simp only [Translated.ChainConfig_IsHF, hfMapOf_ofNat c hf h, Aqv.Consensus.Config.isHF]
   cases hg : c.getHF hf with
   | none => simp
@@ -43,13 +43,13 @@ theorem ChainConfig_IsHF_translated_eq (c : Aqv.Consensus.Config) (hf : Nat) (h 
 
 /-- params.(*ChainConfig).GetHF -/
 theorem ChainConfig_GetHF_translated_eq (c : Aqv.Consensus.Config) (hf : Nat) (h : hf < 2 ^ 63) :
-    Translated.ChainConfig_GetHF (hfMapOf c) (Int64.ofNat hf) = some ((c.getHF hf).map Nat.cast) := by
+    Translated.ChainConfig_GetHF (c_HF := hfMapOf c) (Int64.ofNat hf) = some ((c.getHF hf).map Nat.cast) := by
   simp only [Translated.ChainConfig_GetHF, hfMapOf_ofNat c hf h]
   cases c.getHF hf <;> simp
 
 /-- params.(*ChainConfig).GetBlockVersion: never panics on a non-nil height and returns the model's version. -/
 theorem ChainConfig_GetBlockVersion_translated_eq (c : Aqv.Consensus.Config) (height : Nat) :
-    Translated.ChainConfig_GetBlockVersion (hfMapOf c) (some (height : Int))
+    Translated.ChainConfig_GetBlockVersion (c_HF := hfMapOf c) (some (height : Int))
       = some (UInt8.ofNat (Aqv.Pow.getBlockVersion c height)) := by
   have h9 := ChainConfig_IsHF_translated_eq c 9 (by decide) height
   have h8 := ChainConfig_IsHF_translated_eq c 8 (by decide) height
@@ -64,14 +64,27 @@ theorem ChainConfig_GetBlockVersion_translated_eq (c : Aqv.Consensus.Config) (he
 
 /-- params.(*ChainConfig).IsHomestead / IsByzantium / IsConstantinople = isForked(c.<X>Block, num) -/
 theorem ChainConfig_IsHomestead_translated_eq (blk : Option Nat) (num : Nat) :
-    Translated.ChainConfig_IsHomestead (blk.map Nat.cast) (some (num : Int)) = some (Aqv.Evm.isForked blk num) := by
+    Translated.ChainConfig_IsHomestead (c_HomesteadBlock := blk.map Nat.cast) (some (num : Int)) = some (Aqv.Evm.isForked blk num) := by
   simp only [Translated.ChainConfig_IsHomestead, isForked_translated_eq]
 
 theorem ChainConfig_IsByzantium_translated_eq (blk : Option Nat) (num : Nat) :
-    Translated.ChainConfig_IsByzantium (blk.map Nat.cast) (some (num : Int)) = some (Aqv.Evm.isForked blk num) := by
+    Translated.ChainConfig_IsByzantium (c_ByzantiumBlock := blk.map Nat.cast) (some (num : Int)) = some (Aqv.Evm.isForked blk num) := by
   simp only [Translated.ChainConfig_IsByzantium, isForked_translated_eq]
 
 theorem ChainConfig_IsConstantinople_translated_eq (blk : Option Nat) (num : Nat) :
-    Translated.ChainConfig_IsConstantinople (blk.map Nat.cast) (some (num : Int)) = some (Aqv.Evm.isForked blk num) := by
+    Translated.ChainConfig_IsConstantinople (c_ConstantinopleBlock := blk.map Nat.cast) (some (num : Int)) = some (Aqv.Evm.isForked blk num) := by
   simp only [Translated.ChainConfig_IsConstantinople, isForked_translated_eq]
+
+/-- IsEIP150 / IsEIP155 / IsEIP158 / IsDAOFork = isForked(c.<X>Block, num).  Named arguments pin WHICH field of the chain config
+    each switch reads: the statement stops elaborating if the code reads another block number. -/
+theorem ChainConfig_eipSwitches_translated_eq (blk : Option Nat) (num : Nat) :
+    Translated.ChainConfig_IsEIP150 (c_EIP150Block := blk.map Nat.cast) (some (num : Int)) = some (Aqv.Evm.isForked blk num) ∧
+    Translated.ChainConfig_IsEIP155 (c_EIP155Block := blk.map Nat.cast) (some (num : Int)) = some (Aqv.Evm.isForked blk num) ∧
+    Translated.ChainConfig_IsEIP158 (c_EIP158Block := blk.map Nat.cast) (some (num : Int)) = some (Aqv.Evm.isForked blk num) ∧
+    Translated.ChainConfig_IsDAOFork (c_DAOForkBlock := blk.map Nat.cast) (some (num : Int)) = some (Aqv.Evm.isForked blk num) := by
+  refine ⟨?_, ?_, ?_, ?_⟩
+  · simp only [Translated.ChainConfig_IsEIP150, isForked_translated_eq]
+  · simp only [Translated.ChainConfig_IsEIP155, isForked_translated_eq]
+  · simp only [Translated.ChainConfig_IsEIP158, isForked_translated_eq]
+  · simp only [Translated.ChainConfig_IsDAOFork, isForked_translated_eq]
 end Aqv.Lemmas.Translated
